@@ -74,6 +74,12 @@ def main():
             for m in mod.PROPS_MODULES:
                 names += C.theorem_names(C.module_path(m))
         forb = C.forbidden_scan()
+        rechecked = None
+        if ok_props and args.tier == 'thorough':
+            ok_lc, out_lc = C.leanchecker(targets)
+            rechecked = ok_lc
+            if not ok_lc:
+                broken.append({'what': 'leanchecker rejects the compiled proof modules ' + ' '.join(targets), 'log': out_lc[-2000:]})
     if bad:
         broken.append({'what': 'axiom audit failed', 'theorems': bad})
     if forb:
@@ -157,6 +163,7 @@ def main():
         'trusted_base': C.TRUSTED_BASE + list(getattr(mod, 'TRUSTED_EXTRA', [])),
         'theorems': okn,
         'theorems_not_checked': bad,
+        'leanchecker_recheck': rechecked,
         'evaluations': int(res.get('evaluations', 0)),
         'distinct_nontrivial': int(res.get('distinct_nontrivial', 0)),
         'rule': res.get('rule', ''),
